@@ -647,6 +647,18 @@ func c07envelope(c *an.Ctx) {
 			}
 			idx, isC := an.ConstInt(ia.Index)
 			if !isC {
+				// loop form: `for i := 0; i < 8; i++ { b[i] = byte(g >> f(i)) }` – evaluate f for every i
+				phi, lo, hi, ok := countedIndex(ia.Index)
+				if !ok {
+					return
+				}
+				if b, ok := an.Strip(st.Val).(*ssa.BinOp); ok && b.Op == token.SHR && isParam(an.Strip(b.X), fn, 0) {
+					for i := lo; i < hi; i++ {
+						if k, ok := evalInt(b.Y, map[ssa.Value]int64{phi: i}); ok {
+							shifts[i] = k
+						}
+					}
+				}
 				return
 			}
 			v := an.Strip(st.Val)
@@ -669,7 +681,19 @@ func c07envelope(c *an.Ctx) {
 			if isStdCall(in, "encoding/hex", "Encode") {
 				enc = true
 			}
+			// binary.BigEndian.PutUint64(b[:], uint64(g)) writes the same eight bytes
+			if call, ok := in.(*ssa.Call); ok && an.StdCallee(call, "encoding/binary", "(bigEndian).PutUint64") && len(call.Call.Args) == 3 && isParam(an.Strip(call.Call.Args[2]), fn, 0) {
+				for i := int64(0); i < 8; i++ {
+					shifts[i] = 56 - 8*i
+				}
+			}
 		})
+		good = len(shifts) == 8
+		for i := int64(0); i < 8; i++ {
+			if shifts[i] != 56-8*i {
+				good = false
+			}
+		}
 		idLen, _ := constVal(c, "nsqd", "MsgIDLength")
 		c.Check(good && enc && idLen == 16, fn, "id = 16 hex digits of the big-endian guid", fn.Pos(), "", sprintf("guid.Hex does not hex-encode the 8 bytes of the guid most-significant first (shifts %v): ids are no longer unique/ordered renderings of the guid", shifts))
 	}
@@ -771,4 +795,81 @@ func zeroAt(b *ssa.BasicBlock, src ssa.Value, fld *types.Var, newMsg *ssa.Functi
 		}
 	}
 	return false
+}
+
+// countedIndex: v is the induction variable of `for i := lo; i < hi; i++` with constant bounds (v is the header phi).
+func countedIndex(v ssa.Value) (phi *ssa.Phi, lo, hi int64, ok bool) {
+	phi, isPhi := an.Strip(v).(*ssa.Phi)
+	if !isPhi || len(phi.Edges) != 2 {
+		return nil, 0, 0, false
+	}
+	gotLo, gotInc := false, false
+	for _, e := range phi.Edges {
+		if k, isC := an.ConstInt(e); isC {
+			lo, gotLo = k, true
+			continue
+		}
+		if b, ok := e.(*ssa.BinOp); ok && b.Op == token.ADD && b.X == ssa.Value(phi) {
+			if k, isC := an.ConstInt(b.Y); isC && k == 1 {
+				gotInc = true
+			}
+		}
+	}
+	if !gotLo || !gotInc {
+		return nil, 0, 0, false
+	}
+	// the header tests phi < hi
+	blk := phi.Block()
+	ifi, isIf := blk.Instrs[len(blk.Instrs)-1].(*ssa.If)
+	if !isIf {
+		return nil, 0, 0, false
+	}
+	cmp, isCmp := ifi.Cond.(*ssa.BinOp)
+	if !isCmp || cmp.Op != token.LSS || cmp.X != ssa.Value(phi) {
+		return nil, 0, 0, false
+	}
+	k, isC := an.ConstInt(cmp.Y)
+	if !isC || k-lo > 64 {
+		return nil, 0, 0, false
+	}
+	return phi, lo, k, true
+}
+
+// evalInt evaluates an integer SSA expression over constants and the bindings of env.
+func evalInt(v ssa.Value, env map[ssa.Value]int64) (int64, bool) {
+	if k, ok := env[v]; ok {
+		return k, true
+	}
+	if k, isC := an.ConstInt(v); isC {
+		return k, true
+	}
+	switch x := v.(type) {
+	case *ssa.Convert:
+		return evalInt(x.X, env)
+	case *ssa.ChangeType:
+		return evalInt(x.X, env)
+	case *ssa.BinOp:
+		a, ok1 := evalInt(x.X, env)
+		b, ok2 := evalInt(x.Y, env)
+		if !ok1 || !ok2 {
+			return 0, false
+		}
+		switch x.Op {
+		case token.ADD:
+			return a + b, true
+		case token.SUB:
+			return a - b, true
+		case token.MUL:
+			return a * b, true
+		case token.SHL:
+			if b >= 0 && b < 63 {
+				return a << uint(b), true
+			}
+		case token.QUO:
+			if b != 0 {
+				return a / b, true
+			}
+		}
+	}
+	return 0, false
 }
